@@ -620,6 +620,46 @@ Section Rec.
     destruct Hs as [f [la [_ [_ Hs]]]]. left. subst summary. reflexivity.
   Qed.
 
+  (** without parameters the layout evaluated is the payload itself *)
+  Lemma stage_pre_layout_noparams : forall files a l vm,
+    stage_pre files a = Ok (l, vm) -> a_params a = None -> get_payload (a_md a) = Ok (PLayout l).
+  Proof.
+    intros files a l vm H Hn. unfold Verify.stage_pre in H. rewrite Hn in H.
+    apply bind_Ok in H. destruct H as [[] [_ H]].
+    apply bind_Ok in H. destruct H as [p [Hp H]].
+    apply bind_Ok in H. destruct H as [l0 [Hl0 H]].
+    apply bind_Ok in H. destruct H as [[] [_ H]].
+    apply bind_Ok in H. destruct H as [l1 [Hl1 H]]. inversion Hl1; subst l1.
+    apply bind_Ok in H. destruct H as [sm [_ H]].
+    apply bind_Ok in H. destruct H as [vm0 [_ H]]. inversion H; subst.
+    destruct p as [lk|ly]; [discriminate|]. inversion Hl0; subst. exact Hp.
+  Qed.
+
+  (** what the parent receives for a delegated step: the sublayout's own first step's
+      representative's materials and its last step's representative's products, named after the step *)
+  Theorem sub_summary_shape : forall subs l s kid md summary str,
+    sub_call subs l s kid md = (Ok summary, str) ->
+    exists ly chain reduced,
+      get_payload md = Ok (PLayout ly) /\
+      reduce_chain_links chain = Ok reduced /\
+      verify_threshold_constraints ly chain = Ok tt /\
+      match ly_steps ly with
+      | [] => summary = empty_link
+      | first :: _ =>
+          exists f la,
+            lookup (st_name first) reduced = Some f /\
+            lookup (st_name (last (ly_steps ly) first)) reduced = Some la /\
+            summary = mkLink (JStr s) (l_materials f) (l_products la) (l_byproducts la) (l_command la) (JDict [])
+      end.
+  Proof.
+    intros subs l s kid md summary str H. unfold sub_call in H.
+    destruct (sub_dir subs (sublayout_dirname s kid)) as [files subs'].
+    destruct (verify_recursive _ _ _ _ _ H) as [l' [vm [chain [reduced [Hp [_ [Ht [Hr [_ Hs]]]]]]]]].
+    pose proof (stage_pre_layout_noparams _ _ _ _ Hp eq_refl) as Hpl. cbn [sub_args a_md] in Hpl.
+    exists l', chain, reduced. repeat split; try assumption.
+    apply summary_shape in Hs. exact Hs.
+  Qed.
+
   (* ---------------------------------------------------------------- *)
   (** ** What an accepted call has checked about its own layout (usable for the recursive call) *)
   Lemma verify_accept_gate : forall d a summary tr,
